@@ -19,7 +19,7 @@ RULE = ("Exhaustive: every sequence of length <=3 (thorough <=4) over 43 operati
         "initial pair lists; random sequences of length <=30 over 4 keys x 4 values with the icontract invariant armed on the real class; "
         "constructor forms; query strings with blanks, repeats, '+', %xx, non-ASCII. Non-trivial = a sequence containing at least one mutating "
         "operation applied to a key that has >=1 pair or creating a repeated key; exhaustive sequences are distinct by construction.")
-RULE += " Also: construction from one-shot iterables and from mappings of the other family classes, several mappings built from one list object (aliasing), falsy values ('', 0, None). A key alphabet of None, 0, the letter a and the tuple (a, 1); membership of a (key, value) pair that is not a key. keys() / values() / items() view objects taken before each operation and read after it; mappings built with no argument or from empty inputs one after the other; a form read after close(). update() with a positional argument and keywords at once; mappings of 999 - 3000 pairs."
+RULE += " Also: construction from one-shot iterables and from mappings of the other family classes, several mappings built from one list object (aliasing), falsy values ('', 0, None). A key alphabet of None, 0, the letter a and the tuple (a, 1); membership of a (key, value) pair that is not a key. keys() / values() / items() view objects taken before each operation and read after it; mappings built with no argument or from empty inputs one after the other; a form read after close(). update() with a positional argument and keywords at once; mappings of 999 - 3000 pairs. Values with CR LF; the list multi_items() hands out changed by its caller."
 ASSUMPTIONS = [
     "the position of a re-assigned key's pair and which key popitem() removes are not pinned (any consistent choice accepted)",
     "update(mapping) assigns the mapping's single value per key (MutableMapping contract)",
